@@ -326,6 +326,7 @@ inductive Ans (α : Type) where
   | exc
   | val (x : α)
   | mat (m : List (List α))
+deriving DecidableEq
 
 inductive Op (α : Type) where
   /-- `setParameterValue` / `setParameters`: new tables, then `fireParameterChanged` -/
